@@ -199,12 +199,25 @@ func (d *Def) SDL() string {
 	return b.String()
 }
 
+// HasCloseFault reports whether the document is to be delivered through ParseFS from a file whose Close fails.
+func HasCloseFault(defs []Def) bool {
+	for i := range defs {
+		if defs[i].Kind == "CLOSEFAULT" {
+			return true
+		}
+	}
+	return false
+}
+
 // DocText renders a document; faultAt is the byte offset at which a READFAULT
 // pseudo definition asks the reader to fail (-1: none).
 func DocText(defs []Def) (text string, faultAt int) {
 	faultAt = -1
 	var b strings.Builder
 	for i := range defs {
+		if defs[i].Kind == "CLOSEFAULT" {
+			continue // (how the document is delivered, not part of its text: see HasCloseFault)
+		}
 		if defs[i].Kind == "READFAULT" {
 			if faultAt < 0 {
 				faultAt = b.Len()
